@@ -16,6 +16,14 @@ CHECKS = {
         text="Bounded symbolic proof over the real resampling code: for every real-valued content of the pair-count / weight / histogram arrays at the stated small shapes, z3 shows each jackknife sample equals the leave-patch-k-out statistic, the covariance equals the delete-one formula, is symmetric and PSD (sum-of-squares certificate), error^2 = diag. Counterexamples are replayed on the unmodified code before being reported.",
         note=_REAL + " Division-by-zero inputs excluded (side conditions). Worker arrival order is C05's subject.",
         technique="symbolic execution of real numpy code on object arrays of z3 reals + SMT (z3 nlsat) discharge per path"),
+    "C04": dict(level="other", ref="DESIGN.md 4/C04",
+        text="Bounded symbolic proof over the real CorrFunc.sample / landy_szalay / davis_peebles / RedshiftData.from_corrdata / normalised(): for every non-empty subset of {dr,rd,rr} x {auto,cross} and every real-valued content, value and each jackknife sample equal the documented formula built from explicit totals (auto normalisation = half the squared total weight); n(z)^2 dz^2 w_ss w_pp = w_sp^2 with the sign of w_sp; integral after normalisation = 1.",
+        note=_REAL + " Denominators non-zero / radicands positive (side conditions); sqrt is an axiomatised uninterpreted function; normalised(target=...) and NaN handling outside the claim; RR-without-DR is not covered by the documented formula (error accepted).",
+        technique="symbolic execution of real numpy code on object arrays of z3 reals + SMT (z3 nlsat) discharge per path"),
+    "C17": dict(level="other", ref="DESIGN.md 4/C17",
+        text="Bounded symbolic proof over the real container operators (+, sum(), *, ==), Indexer (int / slice / iteration, selection enumerated by the solver) and constructor shape checks: element-wise sums/products, invariance of sampled estimates under scaling, equality <=> structural equality, selections equal numpy slicing and commute with summation and sampling, malformed shapes/operands raise.",
+        note=_REAL + " Non-contiguous fancy selections outside the claim.",
+        technique="symbolic execution of real numpy code on object arrays of z3 reals + SMT discharge per path; selections as solver choices"),
 }
 NOT_APPLICABLE = [dict(property_id=p, reason="check not built yet in this session (work in progress; see DESIGN.md section 8 build order)") for p in
-    ["C01","C02","C04","C05","C06","C07","C08","C09","C10","C11","C12","C13","C14","C15","C16","C17","C18"]]
+    ["C01","C02","C05","C06","C07","C08","C09","C10","C11","C12","C13","C14","C15","C16","C18"]]
